@@ -708,7 +708,8 @@ func enumFromStringable(msg protoreflect.Message, val stringable) (fhir.Base, er
 		}
 		enumValueStr := protoreflect.Name(strcase.ToScreamingSnake(strVal))
 		enum := valueField.Enum().Values().ByName(enumValueStr)
-		if enum == nil {
+		// number 0 is the protos' INVALID_UNINITIALIZED placeholder, not a code of the value set
+		if enum == nil || enum.Number() == 0 {
 			return nil, fmt.Errorf("%w: %q", ErrInvalidEnum, enumValueStr)
 		}
 		enumVal := protoreflect.ValueOfEnum(protoreflect.EnumNumber(enum.Number()))
